@@ -7,7 +7,7 @@ EXTENDS ZSubst, IOUtils
 CONSTANT N
 VARIABLE tid
 
-TData == JsonDeserialize(IOEnv.TRACE_FILE)
+TData == JsonDeserialize(IOEnv.TRACE_FILE).recs
 
 Scn(i) == [tid |-> i, mk |-> "table", ek |-> "table"]
 VSrcOf(s)  == TData[s.tid].src
